@@ -203,7 +203,12 @@ pub fn fs_rule(prop: &str) -> String {
         "C07" | "C08" => "at least three API calls were judged",
         _ => "at least one mutating operation (create, write, truncate, flush of a written file, delete, mkdir) succeeded",
     };
-    format!("one case = one simulated history: device layout, geometry, pre-populated tree, limit configuration, clock schedule and operation list all drawn from the run's PRNG (profile '{}'); executed against the real library on SimDisk/SimClock in lock-step with the reference model; non-trivial = {}; distinct = distinct hash of the full event log (operation, result class, device calls, bytes changed)", prop, nt)
+    let huge = if prop == "C01" {
+        "; one case in 64 is a huge-file history instead (probe huge_cases): a pre-existing file of 2 GiB - 1400 KiB .. 4 GiB - 1 bytes (sizes at and around 2^31 and the 4 GiB - 1 limit) on a FAT32 volume with 16/32/64 KiB clusters, chain in 1..5 shuffled runs (one boundary at the 2 GiB cluster), seeks from start / current (incl. i32::MIN / MAX and deltas across 2^31) / end, reads and writes across block, cluster and 2^31 boundaries and across the size limit, re-opens; the model is the formatted medium plus an overlay of written blocks, and a small neighbour file must never change"
+    } else {
+        ""
+    };
+    format!("one case = one simulated history: device layout, geometry, pre-populated tree, limit configuration, clock schedule and operation list all drawn from the run's PRNG (profile '{}'); executed against the real library on SimDisk/SimClock in lock-step with the reference model; non-trivial = {}; distinct = distinct hash of the full event log (operation, result class, device calls, bytes changed){}", prop, nt, huge)
 }
 
 pub fn fs_components() -> Value {
